@@ -410,7 +410,7 @@ def run_corr(ctx, prefix, scale, extra_oracle=None, c11_prefix=None):
     if not build_driver(ctx, "solve"): return
     NAME = "PANTRDIR"
     cases = gen_dyadic(ctx) + gen_gamma_changes(ctx, max(20, int(scale * ctx.n(120, 1000)))) + gen_random(ctx, max(40, int(scale * ctx.n(330, 3000))))
-    outs = run_driver(ctx, "solve", "".join(c.rq.to_input() + c.rq_obs.to_input() for c in cases), timeout=1500)
+    outs = run_driver(ctx, "solve", [c.rq.to_input() + c.rq_obs.to_input() for c in cases], timeout=1500)
     if outs is None or len(outs) != 2 * len(cases):
         ctx.broke("correspondence", "drv_solve", "driver produced %s results for %d runs rc=%s %s" % (None if outs is None else len(outs), 2 * len(cases), getattr(ctx, "driver_rc", "?"), getattr(ctx, "driver_err", "")))
         return
